@@ -33,7 +33,8 @@ func optInt(name string) *int64 {
 
 // a case: a Go value with symbolic contents, its schema type name, and the abstract type-level value it holds
 type kase struct {
-	name string
+	name string // Go shape (selects fresh())
+	typ  string // schema type name if different from name
 	ptr  interface{}
 	want *refval.V
 	eq   func(got interface{}) bool // got holds the same data as ptr
@@ -49,16 +50,16 @@ func cases(which int) kase {
 	switch which {
 	case 0:
 		v := &schemas.Plain{A: nd.Int64("A"), B: nd.String("B", 1), C: nd.Bool("C")}
-		return kase{"Plain", v, plainOf(*v), func(g interface{}) bool { return *g.(*schemas.Plain) == *v }}
+		return kase{"Plain", "", v, plainOf(*v), func(g interface{}) bool { return *g.(*schemas.Plain) == *v }}
 	case 1:
 		v := &schemas.Narrow{N: int8(nd.Byte("N")), U: nd.Byte("U"), W: uint32(nd.Int64("W")), X: nd.Uint64("X")}
 		nd.Assume(v.X <= 1<<63-1) // values above MaxInt64 are read through AsUint; covered by case 2
-		return kase{"Narrow", v, mkMap([]string{"N", "U", "W", "X"}, refval.MkInt(int64(v.N)), refval.MkInt(int64(v.U)), refval.MkInt(int64(v.W)), refval.MkInt(int64(v.X))),
+		return kase{"Narrow", "", v, mkMap([]string{"N", "U", "W", "X"}, refval.MkInt(int64(v.N)), refval.MkInt(int64(v.U)), refval.MkInt(int64(v.W)), refval.MkInt(int64(v.X))),
 			func(g interface{}) bool { return *g.(*schemas.Narrow) == *v }}
 	case 2:
 		v := &schemas.Narrow{X: nd.Uint64("X")}
 		nd.Assume(v.X > 1<<63-1)
-		return kase{"Narrow", v, mkMap([]string{"N", "U", "W", "X"}, refval.MkInt(0), refval.MkInt(0), refval.MkInt(0), refval.MkUint(v.X)),
+		return kase{"Narrow", "", v, mkMap([]string{"N", "U", "W", "X"}, refval.MkInt(0), refval.MkInt(0), refval.MkInt(0), refval.MkUint(v.X)),
 			func(g interface{}) bool { return *g.(*schemas.Narrow) == *v }}
 	case 3:
 		v := &schemas.OptNull{Req: nd.Int64("Req"), Opt: optStr("Opt"), Nul: optInt("Nul")}
@@ -95,7 +96,7 @@ func cases(which int) kase {
 		} else {
 			add("Both", &refval.V{K: refval.Absent})
 		}
-		return kase{"OptNull", v, w, func(g interface{}) bool {
+		return kase{"OptNull", "", v, w, func(g interface{}) bool {
 			o := g.(*schemas.OptNull)
 			ok := o.Req == v.Req && (o.Opt == nil) == (v.Opt == nil) && (o.Nul == nil) == (v.Nul == nil) && (o.Both == nil) == (v.Both == nil)
 			if !ok {
@@ -134,7 +135,7 @@ func cases(which int) kase {
 			w.Keys = append(w.Keys, k)
 			w.L = append(w.L, refval.MkInt(x))
 		}
-		return kase{"MapSI", v, w, func(g interface{}) bool {
+		return kase{"MapSI", "", v, w, func(g interface{}) bool {
 			o := g.(*schemas.MapSI)
 			if len(o.Keys) != len(v.Keys) || len(o.Values) != len(v.Values) {
 				return false
@@ -151,7 +152,7 @@ func cases(which int) kase {
 		a, b := nd.String("a", 1), nd.String("b", 1)
 		l := schemas.ListS{a, b}
 		v := &l
-		return kase{"ListS", v, refval.MkList(refval.MkString(a), refval.MkString(b)), func(g interface{}) bool {
+		return kase{"ListS", "", v, refval.MkList(refval.MkString(a), refval.MkString(b)), func(g interface{}) bool {
 			o := *g.(*schemas.ListS)
 			return len(o) == 2 && nd.And(o[0] == a, o[1] == b)
 		}}
@@ -167,7 +168,7 @@ func cases(which int) kase {
 			v.String = &s
 			w = mkMap([]string{"String"}, refval.MkString(s))
 		}
-		return kase{"UnionK", v, w, func(g interface{}) bool {
+		return kase{"UnionK", "", v, w, func(g interface{}) bool {
 			o := g.(*schemas.UnionK)
 			if (o.Int == nil) != (v.Int == nil) || (o.String == nil) != (v.String == nil) {
 				return false
@@ -185,7 +186,7 @@ func cases(which int) kase {
 		v.U.String = &s
 		w := mkMap([]string{"P", "L", "M", "U", "E", "EI", "By"}, plainOf(p), refval.MkList(refval.MkInt(v.L[0])), mkMap([]string{"k"}, refval.MkInt(v.M.Values["k"])),
 			mkMap([]string{"String"}, refval.MkString(s)), refval.MkString(v.E), refval.MkString([]string{"", "One", "Two"}[v.EI]), refval.MkBytes(v.By))
-		return kase{"Nested", v, w, func(g interface{}) bool {
+		return kase{"Nested", "", v, w, func(g interface{}) bool {
 			o := g.(*schemas.Nested)
 			if len(o.L) != 1 || len(o.M.Keys) != 1 || o.U.String == nil || o.U.Int != nil || len(o.By) != 2 {
 				return false
@@ -196,11 +197,45 @@ func cases(which int) kase {
 			r = nd.And(r, nd.And(o.E == v.E, o.EI == v.EI))
 			return nd.And(r, nd.EqBytes(o.By, v.By))
 		}}
+	case 8: // renames that collide with other fields' names (swapped, and shifted)
+		v := &schemas.Swap{L: nd.Int64("L"), R: nd.Int64("R"), Cur: nd.String("Cur", 1), Prev: nd.String("Prev", 1)}
+		return kase{name: "Swap", ptr: v, want: mkMap([]string{"L", "R", "Cur", "Prev"}, refval.MkInt(v.L), refval.MkInt(v.R), refval.MkString(v.Cur), refval.MkString(v.Prev)),
+			eq: func(g interface{}) bool { return *g.(*schemas.Swap) == *v }}
+	case 9: // uint64 values (also above MaxInt64) as typed map values
+		v := &mapU64{Keys: []string{"a", "b"}, Values: map[string]uint64{"a": nd.Uint64("ua"), "b": nd.Uint64("ub")}}
+		return kase{name: "mapU64", typ: "MapSI", ptr: v, want: mkMap([]string{"a", "b"}, uintVal(v.Values["a"]), uintVal(v.Values["b"])),
+			eq: func(g interface{}) bool {
+				o := g.(*mapU64)
+				return len(o.Keys) == 2 && len(o.Values) == 2 && nd.And(o.Values["a"] == v.Values["a"], o.Values["b"] == v.Values["b"])
+			}}
+	case 10: // a uint64 union member
+		u := nd.Uint64("uu")
+		v := &unionU64{Int: &u}
+		return kase{name: "unionU64", typ: "UnionK", ptr: v, want: mkMap([]string{"Int"}, uintVal(u)),
+			eq: func(g interface{}) bool { o := g.(*unionU64); return o.Int != nil && o.String == nil && *o.Int == u }}
 	}
 	panic("no such case")
 }
 
-const nCases = 8
+type mapU64 struct {
+	Keys   []string
+	Values map[string]uint64
+}
+
+type unionU64 struct {
+	Int    *uint64
+	String *string
+}
+
+// uintVal: how a Go uint64 reads at the data-model level: an int when it fits int64, else a uint.
+func uintVal(u uint64) *refval.V {
+	if u <= 1<<63-1 {
+		return refval.MkInt(int64(u))
+	}
+	return refval.MkUint(u)
+}
+
+const nCases = 11
 
 var ts *schema.TypeSystem
 
@@ -227,6 +262,12 @@ func fresh(name string) interface{} {
 		return &schemas.UnionK{}
 	case "Nested":
 		return &schemas.Nested{}
+	case "Swap":
+		return &schemas.Swap{}
+	case "mapU64":
+		return &mapU64{}
+	case "unionU64":
+		return &unionU64{}
 	}
 	panic(name)
 }
@@ -235,7 +276,10 @@ func fresh(name string) interface{} {
 // builder and unwrapping returns a Go value holding the same data; Marshal/Unmarshal round-trips.
 func HWrap() {
 	k := cases(nd.Choose("case", nd.Param("CASES", nCases)))
-	typ := typeOf(k.name)
+	if k.typ == "" {
+		k.typ = k.name
+	}
+	typ := typeOf(k.typ)
 	var n schema.TypedNode
 	nd.NoPanic("Wrap", func() { n = bindnode.Wrap(k.ptr, typ) })
 	if n == nil {
@@ -267,7 +311,9 @@ func HWrap() {
 		nd.NoPanic("Unmarshal", func() { _, err = ipld.Unmarshal(enc, dagcbor.Decode, out, typ) })
 		nd.Assert(err == nil, "Unmarshal of the marshalled bytes succeeds")
 		if err == nil {
-			if k.name == "MapSI" {
+			if k.name == "mapU64" {
+				nd.Assert(k.eq(out), "Unmarshal(Marshal(v)) holds the same data as v")
+			} else if k.name == "MapSI" {
 				// a key-sorting codec canonicalises the key order of ordered-map structs
 				nd.Assert(len(out.(*schemas.MapSI).Keys) == len(k.ptr.(*schemas.MapSI).Keys), "map round trip keeps every key")
 			} else {
@@ -358,6 +404,69 @@ func HSameName() {
 			nd.NoPanic("Marshal", func() { enc, err = ipld.Marshal(dagcbor.Encode, ptrs[i], nil) })
 			nd.Assert(err == nil && nd.EqBytes(enc, refcbor.Encode(nil, wants[i])), "and marshals to the encoding of exactly those fields")
 		}
+	}
+	nd.Reach("end")
+}
+
+// HHints: a size hint is only a hint: lists and maps assembled with hints below, at and far
+// above the number of entries hold exactly the entries assembled.
+func HHints() {
+	n := nd.Choose("n", 3)
+	hint := []int64{-1, 0, int64(n), int64(n) + 3, 64}[nd.Choose("hint", 5)]
+	inferred := nd.Choose("inferred", 2) == 1
+	repr := nd.Choose("level", 2) == 1
+	if nd.Choose("what", 2) == 0 {
+		var ptr interface{} = (*schemas.ListS)(nil)
+		if inferred {
+			ptr = nil
+		}
+		p := bindnode.Prototype(ptr, typeOf("ListS"))
+		var np datamodel.NodePrototype = p
+		if repr {
+			np = p.Representation()
+		}
+		nb := np.NewBuilder()
+		la, err := nb.BeginList(hint)
+		nd.Assert(err == nil, "BeginList with any hint")
+		want := refval.MkList()
+		for i := 0; i < n; i++ {
+			s := nd.String("e", 1)
+			nd.Assert(la.AssembleValue().AssignString(s) == nil, "element")
+			want.L = append(want.L, refval.MkString(s))
+		}
+		nd.Assert(la.Finish() == nil, "Finish")
+		node := nb.Build()
+		nd.Assert(node.Length() == int64(n) && refval.Equal(refval.Of(node), want), "the list holds exactly the elements assembled, whatever the hint")
+		if !inferred {
+			nd.Assert(len(*bindnode.Unwrap(node).(*schemas.ListS)) == n, "and so does the Go slice")
+		}
+		var b bytes.Buffer
+		nd.Assert(dagcbor.Encode(node.(schema.TypedNode).Representation(), &b) == nil && nd.EqBytes(b.Bytes(), refcbor.Encode(nil, want)), "and its encoding")
+	} else {
+		var ptr interface{} = (*schemas.MapSI)(nil)
+		if inferred {
+			ptr = nil
+		}
+		p := bindnode.Prototype(ptr, typeOf("MapSI"))
+		var np datamodel.NodePrototype = p
+		if repr {
+			np = p.Representation()
+		}
+		nb := np.NewBuilder()
+		ma, err := nb.BeginMap(hint)
+		nd.Assert(err == nil, "BeginMap with any hint")
+		want := &refval.V{K: refval.Map}
+		for i := 0; i < n; i++ {
+			k := string(rune('a' + i))
+			va, err := ma.AssembleEntry(k)
+			nd.Assert(err == nil, "entry")
+			x := nd.Int64("x")
+			nd.Assert(va.AssignInt(x) == nil, "value")
+			want.Keys, want.L = append(want.Keys, k), append(want.L, refval.MkInt(x))
+		}
+		nd.Assert(ma.Finish() == nil, "Finish")
+		node := nb.Build()
+		nd.Assert(node.Length() == int64(n) && refval.Equal(refval.Of(node), want), "the map holds exactly the entries assembled, whatever the hint")
 	}
 	nd.Reach("end")
 }
